@@ -150,7 +150,8 @@ def run(ctx):
     obs = [L.run_impl(c) for c in cases]
     mism = []
     idx = [i for i, o in enumerate(obs) if o.get("ok")]
-    terms = [L.coq_case(cases[i], obs[i]) for i in idx]
+    capped = "arnoldi_padding" not in present      # model variant: arnoldi_batch_capped when the flag is gone
+    terms = [L.coq_case(cases[i], obs[i], capped) for i in idx]
     codes, err, maxdiff = eval_cases("c15", terms)
     if err:
         mism.append(dict(oracle_fail=False, harness_error=err))
@@ -174,7 +175,7 @@ def run(ctx):
             if bad:
                 mism.append(dict(oracle_fail=True, case=c, got={k: o.get(k) for k in ("ok", "err", "shapes", "H")}, failed_clauses=bad))
             if o.get("ok"):
-                for b, t in enumerate(L.coq_elem_cases(c, o)):
+                for b, t in enumerate(L.coq_elem_cases(c, o, capped)):
                     eterms.append(t); owner.append((ci, b))
         ecodes, eerr, _ = eval_cases("c15_elem", eterms)
         elem_compared = len(eterms)
@@ -210,7 +211,7 @@ def run(ctx):
         samples=[dict(kind=c["kind"], n=c["n"], cplx=c["cplx"], start=c["start"], batch=c["batch"], max_iters=c["max_iters"], tol=c["tol"], entry=c["entry"],
                       v=c["v"], parts=c["parts"]) for c in cases[:2]],
         mismatches=mism, findings=fnd,
-        extra=dict(compared_in_coq=len(idx), max_model_impl_difference=maxdiff, tolerance=1e-9, near_tie=hist.get(1, 0),
+        extra=dict(compared_in_coq=len(idx), model_variant=("arnoldi_batch_capped" if capped else "arnoldi_batch"), max_model_impl_difference=maxdiff, tolerance=1e-9, near_tie=hist.get(1, 0),
                    noise_amplified_skipped=hist.get(2, 0), agree=hist.get(0, 0),
                    kind_histogram=kh, start_histogram=sh, max_iters_vs_n=mh,
                    breakdown_cases=sum(1 for c in cases if min(c["grades"]) < min(c["max_iters"], c["n"])),
@@ -239,7 +240,7 @@ def replay(ctx, payload):
         bad = L.oracle(c, o, present)
         cd = None
         if o.get("ok") and c["n"] <= 40:
-            codes, err, _ = eval_cases("c15_replay", [L.coq_case(c, o)])
+            codes, err, _ = eval_cases("c15_replay", [L.coq_case(c, o, "arnoldi_padding" not in present)])
             cd = err or (codes or {}).get(0, 0)
         print(f"replay C15: oracle failed clauses={bad} model comparison code={cd}")
         if bad or (isinstance(cd, int) and cd >= 3) or isinstance(cd, str):
